@@ -36,7 +36,7 @@ func genC15(p *Plan, r *RNG) {
 	p.NetFaults, p.IOFaults, p.Stalls = nil, nil, nil
 	n := len(p.Ops)
 	cut := r.Range(2, n)
-	cause := r.Pick([]string{"expiry", "refresh0", "srv_close", "srv_close", "relay_read", "relay_write", "ctl_close", "listener_write", "none"})
+	cause := r.Pick([]string{"expiry", "refresh0", "srv_close", "srv_close", "relay_read", "relay_write", "ctl_close", "listener_write", "none", "relay_close_err", "relay_read+close_err"})
 	if cause == "ctl_close" && p.Cfg.Listener != "tcp" {
 		cause = "refresh0"
 	}
@@ -54,6 +54,17 @@ func genC15(p *Plan, r *RNG) {
 		p.IOFaults = append(p.IOFaults, IOFault{M: Match{Sock: "relay", Op: "ReadFrom", Nth: r.Range(1, 6)}, Do: "error"})
 	case "relay_write":
 		p.IOFaults = append(p.IOFaults, IOFault{M: Match{Sock: "relay", Op: "WriteTo", Nth: r.Range(1, 4)}, Do: "error"})
+	case "relay_close_err":
+		// the relay socket's Close reports an error (whatever makes the allocation end)
+		p.IOFaults = append(p.IOFaults, IOFault{M: Match{Sock: "relay", Op: "Close", Nth: r.Range(1, 3)}, Do: "error"})
+		if r.Chance(1, 2) {
+			td = append(td, Op{Actor: c, Kind: "refresh", At: g, A: OpArgs{Lifetime: 0}})
+		} else {
+			td = append(td, Op{Kind: "wait", At: ref("alloc_deadline", sec, c)})
+		}
+	case "relay_read+close_err":
+		p.IOFaults = append(p.IOFaults, IOFault{M: Match{Sock: "relay", Op: "ReadFrom", Nth: r.Range(1, 6)}, Do: "error"},
+			IOFault{M: Match{Sock: "relay", Op: "Close", Nth: 0}, Do: "error"})
 	case "listener_write":
 		p.IOFaults = append(p.IOFaults, IOFault{M: Match{Sock: "listener", Op: "WriteTo", Nth: r.Range(1, 8)}, Do: "error"})
 	case "ctl_close":
